@@ -510,9 +510,88 @@ def reach_formulas(info):
     return r, missing_reach
 
 
+def cli_unreachable_siblings(s):
+    """C11, file-collection half (utils.rs): the CLI is run over a model of the file system in which an UNREACHABLE sibling
+    z.xsd is absent / a schema / malformed / not XML / unreadable / not UTF-8 (read_to_string fails); the process must exit 0 and
+    write exactly the bytes it writes without that sibling"""
+    ctx = s.ctx
+    kind = Selector('unreachable_sibling', ['absent', 'schema', 'malformed', 'not-xml', 'unreadable'])
+    spelling = Selector('path_spelling', [('absolute', '/w/in', '/w/in/a.xsd'), ('bare-name', '/w/in', 'a.xsd')])
+    Z = {'schema': GOOD_B.replace('urn:b', 'urn:z').replace('name="B"', 'name="Zed"'), 'malformed': '<xs:schema xmlns:xs="http://www.w3.org/2001/XMLSchema"><xs:complexType',
+         'not-xml': 'just some text\n', 'unreadable': 'irrelevant'}
+    s.scenarios += 1
+
+    def entry(m):
+        m.pc.append(kind.domain)
+        m.pc.append(spelling.domain)
+        k = m.concretize(kind.sym())
+        sp = m.concretize(spelling.sym())
+        events = []
+        files = {'/w/in/a.xsd': GOOD_A, '/w/in/b.xsd': GOOD_B}
+        if k != 'absent':
+            files['/w/in/z.xsd'] = Z[k]
+        vfs = VFS(files, {'/w', '/w/in', '/'}, sp[1], events)
+        if k == 'unreadable':
+            vfs.unreadable.add('/w/in/z.xsd')
+        m.hooks.append(cli_hook(vfs, {'-i': sp[2]}))
+        main = [b for n, b in m.b.items() if n == 'main' and b.kind == 'fn'][0]
+        outcome = 'exit0'
+        try:
+            m.run(main, [])
+        except Panic as e:
+            outcome = 'panic: ' + str(e)[:80]
+        return dict(kind=k, spelling=sp[0], arg=sp[2], cwd=sp[1], outcome=outcome, out=vfs.files.get('/w/in/a.rs'))
+    res = explore(lambda: H.machine(ctx, binary=True), entry)
+    s.count(res)
+    if len(res) > 1:
+        s.nontrivial += 1
+    base = {r['spelling']: r for m, (t, r) in res if t == 'ok' and r['kind'] == 'absent'}
+    found = {}
+    for m, out in res:
+        if out[0] != 'ok':
+            s.rep.inconc('C11 cli part: %s %s' % (out[0], out[1]))
+            continue
+        r = out[1]
+        ref = base.get(r['spelling'])
+        if ref is None or ref['outcome'] != 'exit0':
+            continue
+        if r['outcome'] != 'exit0':
+            found.setdefault('cli/unreachable-sibling-changes-outcome/' + r['kind'], ('with an unreachable sibling z.xsd that is %s the generation fails (%s); without it, it succeeds' % (r['kind'], r['outcome']), r))
+        elif r['out'] != ref['out']:
+            found.setdefault('cli/unreachable-sibling-changes-output/' + r['kind'], ('an unreachable sibling z.xsd (%s) changes the bytes written' % r['kind'], r))
+    s.samples.append(dict(scenario='cli-unreachable-siblings', paths=len(res), symbolic={'unreachable_sibling': kind.options, 'path_spelling': [o[0] for o in spelling.options]}, violations=sorted(found)))
+    for key, (what, r) in sorted(found.items()):
+        d = tempfile.mkdtemp(prefix='zeep-verif-c11.')
+        try:
+            os.makedirs(d + '/w/in')
+            open(d + '/w/in/a.xsd', 'w').write(GOOD_A)
+            open(d + '/w/in/b.xsd', 'w').write(GOOD_B)
+            if r['kind'] == 'unreadable':
+                open(d + '/w/in/z.xsd', 'wb').write(b'\xff\xfe\x00bad')     # not UTF-8: read_to_string fails (root ignores permissions)
+            else:
+                open(d + '/w/in/z.xsd', 'w').write(Z[r['kind']])
+            arg = r['arg'] if not r['arg'].startswith('/') else d + r['arg']
+            rc, log_, _ = run([ctx.zeep, '-i', arg], cwd=d + r['cwd'], timeout=60)
+            os.remove(d + '/w/in/z.xsd')
+            got = open(d + '/w/in/a.rs').read() if os.path.exists(d + '/w/in/a.rs') else None
+            if os.path.exists(d + '/w/in/a.rs'):
+                os.remove(d + '/w/in/a.rs')
+            rc0, _l, _ = run([ctx.zeep, '-i', arg], cwd=d + r['cwd'], timeout=60)
+            want = open(d + '/w/in/a.rs').read() if os.path.exists(d + '/w/in/a.rs') else None
+        finally:
+            rmtree(d)
+        s.replays += 1
+        rdir = save_replay('C11', re.sub(r'\W+', '_', key), {'finding.txt': '%s\n%s\nnative: with z.xsd rc=%s, without rc=%s\n%s\n' % (key, what, rc, rc0, log_[-400:]), 'a.xsd': GOOD_A, 'b.xsd': GOOD_B})
+        if rc0 == 0 and (rc != 0 or got != want):
+            s.rep.violation(key, what, rdir)
+        else:
+            s.rep.inconc('ENCODING-MISMATCH %s: natively rc=%s / %s' % (key, rc, rc0))
+
+
 def c11(tier):
     def body(s):
         ctx = s.ctx
+        cli_unreachable_siblings(s)
         s.functions.update(n for n in ctx.bodies if re.search(r'read_xml|read_xsd|process_import|::extend|extend_no_duplicates|::read$', n) and '::tests::' not in n)
         fams = [F.import_graph(3, 2), F.import_graph(2, 2, with_missing=True), F.import_nolocation(),
                 F.import_graph(slots=1, names=['a.xsd', 'b.xsd', 'B.xsd'], tag='imports-case-sensitive-names')]
